@@ -27,7 +27,7 @@ package aggregate
 
 // measure: exactly one stream - the one the limiter selects - grows by exactly `value`; every other stream is untouched
 //@ func (s *valueMap[N]) measure(ctx context.Context, value N, fltrAttr attribute.Set, droppedAttr []attribute.KeyValue)
-//@   prop C02 C12
+//@   prop C02 C08 C12
 //@   instances int64; float64
 //@   acquires s.Mutex
 //@   overflow assumed
